@@ -225,7 +225,92 @@ func inputMessages(ctxID, reqID []byte) []inputCase {
 
 var inputTxHash = append([]byte{0x77}, make([]byte, 31)...)
 
-func inputGrid(tier string) (*PureEvidence, []Found) { return inputGridWith(nil) }
+func inputGrid(tier string) (*PureEvidence, []Found) {
+	ev, found := inputGridWith(nil)
+	found = append(found, inputGridFX(ev)...)
+	return ev, found
+}
+
+// inputGridFX: boundary-shaped binding and call messages on a host chain with a token module (prices and deposits in
+// main units, foreign and unknown tokens, amounts around the limits after scaling), delivered in two states (bound;
+// batch in flight) and at a height at which the exchange-rate service has no answer, each followed by an end of block.
+func inputGridFX(ev *PureEvidence) []Found {
+	sc := scFX(defaultParams(), "fusd1v", []Template{tFxOne, tFxRep}, AlphaOpts{}, fxSpec(H0+1), 1, 1, 1)
+	rig := NewRig(sc.Rig)
+	bound := rig.Genesis(sc.Params, sc.Funds, sc.Extra)
+	for _, a := range sc.Setup {
+		p, res := Exec(rig, sc, bound, a)
+		if !res.OK() {
+			panic("S-INPUT(fx) setup: " + res.ErrString())
+		}
+		bound = p
+	}
+	running := bound
+	for _, a := range []Action{sc.actCall(0), sc.actCall(1), actE()} { // the next end of block is the one without a rate
+		p, res := Exec(rig, sc, running, a)
+		if !res.OK() {
+			panic("S-INPUT(fx) setup: " + res.ErrString())
+		}
+		running = p
+	}
+	two128 := "340282366920938463463374607431768211455" // 2^128-1
+	prices := []string{"1usd", "0.000001usd", "0usd", "1yen", "1.5kilo", "0kilo", "0.0005kilo", "4" + strings.Repeat("0", 76) + "kilo", two128 + "kilo", two128 + "cent", two128 + ".999usd",
+		"1" + strings.Repeat("0", 77) + ".0kilo", "0." + strings.Repeat("0", 17) + "1kilo", "1stake"}
+	deps := []sdk.Coins{coins(10), coins(40), sdk.NewCoins(sdk.NewInt64Coin("kilo", 10)), sdk.NewCoins(sdk.NewInt64Coin("cent", 10)), sdk.NewCoins(sdk.NewInt64Coin("yen", 10))}
+	caps := []sdk.Coins{coins(5), sdk.NewCoins(sdk.NewInt64Coin("cent", 500)), sdk.NewCoins(sdk.NewInt64Coin("kilo", 1)), hugeCoins()}
+	var msgs []inputCase
+	for _, pr := range prices {
+		for _, d := range deps {
+			text := `{"price":"` + pr + `"}`
+			msgs = append(msgs, inputCase{"fx-bind", st.NewMsgBindService("a", P4, d, text, 1, "{}", O1)})
+			msgs = append(msgs, inputCase{"fx-update", st.NewMsgUpdateServiceBinding("a", P1, d, text, 0, "{}", O1)})
+			msgs = append(msgs, inputCase{"fx-update-promo", st.NewMsgUpdateServiceBinding("a", P1, d, `{"price":"`+pr+`","promotions_by_volume":[{"volume":1,"discount":"0.000000000000000001"}]}`, 0, "{}", O1)})
+		}
+		msgs = append(msgs, inputCase{"fx-enable", st.NewMsgEnableServiceBinding("a", P1, deps[2], O1)})
+	}
+	for _, c := range caps {
+		msgs = append(msgs, inputCase{"fx-call", st.NewMsgCallService("a", []sdk.AccAddress{P1, P2, P3}, C1, inputOK, c, 1, false, true, 1, 2)})
+		msgs = append(msgs, inputCase{"fx-call-oracle-price", st.NewMsgCallService(st.OraclePriceServiceName, []sdk.AccAddress{st.OraclePriceServiceProvider}, C1, `{"header":{},"body":{"pair":"cent-stake"}}`, c, 1, false, false, 0, 0)})
+	}
+	var out []Found
+	for _, stt := range []struct {
+		n string
+		s *State
+	}{{"fx-bound", bound}, {"fx-running", running}} {
+		for _, ic := range msgs {
+			ev.Counters["generated/"+ic.Name]++
+			if err := ic.Msg.ValidateBasic(); err != nil {
+				ev.Counters["stateless-reject/"+ic.Name]++
+				continue
+			}
+			if rig.Dirty() {
+				rig = NewRig(sc.Rig)
+			}
+			w := rig.Restore(stt.s)
+			res := w.DeliverMsg(ic.Msg, inputTxHash, 0)
+			ev.Evaluations++
+			ev.Counters["delivered/"+ic.Name]++
+			ev.Counters["outcome/"+ic.Name+"/"+res.Outcome()]++
+			if res.Panic != "" {
+				out = append(out, Found{Violation: viol("C20", "handler-never-panics", ic.Name, panicClass(res.Panic, res.PanicTrc),
+					fmt.Sprintf("state %s, message %s: panic %s at %s", stt.n, msgJSON(ic.Msg), res.Panic, res.PanicTrc)), Trace: []string{stt.n, msgJSON(ic.Msg)}, Count: 1})
+				continue
+			}
+			for i := 0; i < 2; i++ { // the block with the rate missing, then one with a rate
+				eb := w.EndBlock()
+				ev.Counters["end-of-block-after/"+ic.Name]++
+				if eb.Panic != "" {
+					out = append(out, Found{Violation: viol("C20", "end-of-block-never-panics", "E-after-"+ic.Name, panicClass(eb.Panic, eb.PanicTrc),
+						fmt.Sprintf("state %s, after message %s: end of block panics: %s at %s", stt.n, msgJSON(ic.Msg), eb.Panic, eb.PanicTrc)), Trace: []string{stt.n, msgJSON(ic.Msg), "E"}, Count: 1})
+					break
+				}
+				st2 := &State{Height: stt.s.Height + int64(i) + 1, Time: stt.s.Time + int64(i) + 1, Stores: w.Flush()}
+				w = rig.Restore(st2)
+			}
+		}
+	}
+	return out
+}
 
 // inputGridInv evaluates the state invariants of one property on every state reached by a boundary-shaped message
 // (and on the state after the following end of block).
